@@ -16,6 +16,7 @@ import (
 const stepDeadline = 150 * time.Millisecond
 
 type moveRes struct {
+	attempts int // loop iterations used (1 = everything moved at the first try)
 	ok     bool
 	hung   string // a call that did not return within the watchdog
 	panic  string
@@ -127,6 +128,7 @@ func (c *cpair) move(total time.Duration) moveRes {
 		res.detail = what + " => " + errName(e.err)
 	}
 	for attempt := 0; ; attempt++ {
+		res.attempts = attempt + 1
 		switch c.p.style {
 		case stSym, stSendOnly, stRecvOnly:
 			if c.p.style != stRecvOnly && !okOut {
